@@ -79,10 +79,10 @@ class Result:
 
 
 class Ctx:
-    def __init__(self, tier, prop):
+    def __init__(self, tier, prop, repo=None):
         self.tier = tier
         self.prop = prop
-        self.repo = REPO
+        self.repo = repo or REPO
         self._P = None
         self._Pall = None
         self._eff = None
@@ -148,8 +148,10 @@ def run_property(prop, rules, tier, seed, meta):
             if out is None:
                 continue
             results += out if isinstance(out, list) else [out]
-        if tier == 'thorough' and meta.get('thorough'):
-            for r in meta['thorough']:
+        if tier == 'thorough':
+            from .selftest import selftest_rule
+            extra = list(meta.get('thorough', [])) + [selftest_rule(prop)]
+            for r in extra:
                 out = r(ctx)
                 if out is None:
                     continue
